@@ -79,6 +79,11 @@ def scanPoint (dy dpmm x y : α) : Option (Int × Int) := do
   let a ← fixedPoint (pixelX dpmm x)
   let b ← fixedPoint (pixelY dy dpmm y)
   pure (a, b)
+/-- rasterizer.go RenderPath (since 190569f): the abscissa handed to `gradient.At` for pixel column c:
+`(float64(x)+0.5)/dpmm` -/
+def gradArgX (dpmm : α) (c : Int) : α := (Scalar.ofInt c + Scalar.half) / dpmm
+/-- … and the ordinate for pixel row r: `(float64(size.Y)-float64(y)-0.5)/dpmm` -/
+def gradArgY (dy dpmm : α) (r : Int) : α := (dy - Scalar.ofInt r - Scalar.half) / dpmm
 end G
 
 instance : Scalar Rat where
@@ -171,15 +176,10 @@ def replay {Px Col} : List (Draw Px Col) → (Px → Col) → (Px → Col)
 def lastCover {Px Col} (ds : List (Draw Px Col)) (p : Px) : Option Col :=
   ds.foldl (fun acc d => if d.covers p then some d.paint else acc) none
 
-/-! ### gradient parameter (for the units finding) -/
+/-! ### gradient lookup: the canvas point at which pixel (c, r) evaluates its gradient -/
 
-/-- parameter of a horizontal linear gradient from x0 to x1 at abscissa x -/
-def gradT (x0 x1 x : Rat) : Rat := (x - x0) / (x1 - x0)
-def clamp01 (t : Rat) : Rat := if t ≤ 0 then 0 else if 1 ≤ t then 1 else t
-/-- what the property asks: evaluate at the canvas position of pixel column c -/
-def gradAtPixelSpec (dpmm x0 x1 : Rat) (c : Int) : Rat := clamp01 (gradT x0 x1 (canvasX dpmm ((c : Rat) + 1 / 2)))
-/-- rasterizer.go as written: `gradient.At(float64(x), float64(y))` with pixel indices -/
-def gradAtPixelImpl (x0 x1 : Rat) (c : Int) : Rat := clamp01 (gradT x0 x1 (c : Rat))
+def gradX (dpmm : Rat) (c : Int) : Rat := ((c : Rat) + 1 / 2) / dpmm
+def gradY (hpx : Int) (dpmm : Rat) (r : Int) : Rat := ((hpx : Rat) - (r : Rat) - 1 / 2) / dpmm
 
 /-! ### L3 pixel specification -/
 
@@ -352,6 +352,7 @@ def handlePix : List String → Option String
     | some b, _ =>
       let anyEO := pdraws.any (·.rule == Rule.evenOdd)
       let v2 := if anyEO then judge (pdraws.map (conv · fun _ => Rule.nonZero)) e0 rows else v
+      -- regression class (the rasterizer honours EvenOdd since cc87e30): the image agrees with the all-NonZero reading
       if anyEO && v2.bad.isNone then
         pure s!"FAIL fillrule-ignored:EvenOdd {show4 b} (all pixels off the top row and left column agree with NonZero){border v2}"
       else
@@ -371,6 +372,7 @@ def parseNatList (ts : List String) : Option (List Nat) := ts.mapM (·.toNat?)
   FIX toI x | FIX fromI i | FIX fixed x | FIX toP x y | FIX fromP i j
   SIZE w h dpmm                     → wpx hpx
   SCAN hpx dpmm x y                 → fixed X, fixed Y
+  GRAD hpx dpmm c r                 → the (x, y) handed to gradient.At for pixel column c, row r
   SCS <linear 0/1> <n> <off> <len> <cap> stops… MAP f(stops)…  → caller's stops afterwards | returned stops
   PIX …
 -/
@@ -405,6 +407,12 @@ def handle : List String → Option String
     match scanPointF (Float.ofInt hpx) d x y with
     | some (a, b) => pure s!"{a} {b}"
     | none => pure "range"
+  | ["GRAD", hpx, dpmm, c, r] => do
+    let hpx ← hpx.toInt?
+    let d ← floatOfHex? dpmm
+    let c ← c.toInt?
+    let r ← r.toInt?
+    pure s!"{hexOfFloat (G.gradArgX d c)} {hexOfFloat (G.gradArgY (Float.ofInt hpx) d r)}"
   | "SCS" :: lin :: n :: off :: len :: cap :: ts => do
     let n ← n.toNat?
     let off ← off.toNat?
